@@ -48,7 +48,7 @@ ASSUMPTIONS = [
 PROBES = ["join-while-running", "join-after-finished", "timeout-expired", "evaluate-failed-after-zero-exit",
           "cancel-while-running", "cancel-after-exit", "exit-between-calls", "two-wrappers-interleaved",
           "launch-failed-with-execdir", "state-error-checked", "results-verified", "tree-verified",
-          "mapped-alphabet-verified", "matrix-file-verified", "align-classmethod-failed", "poll-join-timeout",
+          "mapped-alphabet-verified", "matrix-file-verified", "align-classmethod-failed", "poll-join-timeout", "cwd-changed-between-calls",
           "poll-join-success", "clock-jump-during-join", "exited-unrefreshed-getter"]
 
 PROT = "ACDEFGHIKLMNPQRSTVWY"
@@ -243,6 +243,10 @@ def generate(rng):
         if r < 0.16:
             ops.append({"op": "advance", "dt": rng.choice([0.05, 0.25, 1.0, 2.5, 10.0, 60.0, 600.0])})
             continue
+        if r < 0.19:
+            # the caller's own code changes the working directory between two wrapper calls
+            ops.append({"op": "chdir", "dir": rng.choice(["cwd0", "cwd1", "cwd1"])})
+            continue
         if kind not in ("stublocal", "stubpoll") and rng.random() < 0.02 and w["script"]["dur"] is not None:
             ops.append({"w": cur, "op": "align"})
             continue
@@ -401,8 +405,9 @@ class Sim:
         self.cwd0 = os.path.join(self.root, "cwd0")
         self.step = -1
         self.launched_any = False
-        for d in ("cwd0", "exec", "exec2", "tmp"):
+        for d in ("cwd0", "cwd1", "exec", "exec2", "tmp"):
             os.makedirs(os.path.join(self.root, d))
+        self.cur_cwd = self.cwd0
         self.tmp = os.path.join(self.root, "tmp")
         self.known = []
         self.stray = set()
@@ -457,8 +462,8 @@ class Sim:
     # ---- invariants after every operation -----------------------------------------------------------
     def check_invariants(self, after_op):
         cwd = os.getcwd()
-        if cwd != self.cwd0:
-            self.fail("resource:cwd-changed", op=after_op, cwd=cwd, expected=self.cwd0)
+        if cwd != self.cur_cwd:
+            self.fail("resource:cwd-changed", op=after_op, cwd=cwd, expected=self.cur_cwd)
         for rec in self.recs:
             if rec.app is None or rec.state is None:
                 continue
@@ -496,7 +501,7 @@ class Sim:
 
     def check_tool_report(self, rec, p):
         rep = p.tool_report
-        exp_cwd = rec.exec_dir_path or self.cwd0
+        exp_cwd = rec.exec_dir_path or getattr(rec, "created_cwd", self.cwd0)
         if rep["cwd"] != exp_cwd:
             self.fail("launch:wrong-exec-dir", kind=rec.kind, got=rep["cwd"], expected=exp_cwd)
         if rep["extras"] != rec.extras:
@@ -633,6 +638,12 @@ class Sim:
             self.log.add({"i": self.step, "op": "advance", "dt": op["dt"], "now": round(self.world.now - sw.EPOCH, 3)})
             self.check_invariants("advance")
             return
+        if name == "chdir":
+            self.cur_cwd = os.path.join(self.root, op["dir"])
+            os.chdir(self.cur_cwd)
+            self.res.stats["probe:cwd-changed-between-calls"] += 1
+            self.log.add({"i": self.step, "op": "chdir", "dir": op["dir"]})
+            return
         w = op["w"]
         if w >= len(self.recs):
             return
@@ -756,6 +767,7 @@ class Sim:
             t = ws["seqs"]["type"]
             rec.seqtype = "protein" if t in ("protein", "custom") else "nucleotide"
         rec.exec_dir_path = None
+        rec.created_cwd = self.cur_cwd  # documented default execution directory: the cwd at creation time
         rec.end_how = None
         # count entries into the documented protected method clean_up()
         orig = app.clean_up
@@ -1300,6 +1312,7 @@ class Sim:
             return
         rec = WRec(rec0.idx, ws)
         rec.exec_dir_path = None
+        rec.created_cwd = self.cur_cwd
         seqs = _make_sequences(ws["seqs"], None)
         rec.seqs = seqs
         matrix = None
